@@ -1,8 +1,93 @@
-"""C05 — scheduler family; shared stream in sched.py"""
+"""C05 — scheduler family (shared stream in sched.py) + the agent-level stop / escalation stream"""
+import json
 import common, sched
 
 PROP = "C05"
+SIGNUM = {"": 15, "SIGINT": 2, "SIGUSR1": 10, "SIGQUIT": 3}
+
+
+def gen_stop_case(rng, k):
+    nroots = rng.randint(1, 3)
+    nodes = []
+    for i in range(nroots):
+        nodes.append({"deps": [], "cf": False, "cs": False, "limit": 0, "pre": 0, "fails": 0,
+                      "obeys": rng.random() < 0.5, "sig": rng.choice(["", "", "SIGINT", "SIGUSR1"])})
+    for i in range(rng.randint(0, 2)):
+        nodes.append({"deps": rng.sample(range(nroots), rng.randint(1, nroots)), "cf": False, "cs": False, "limit": 0, "pre": 0, "fails": 0,
+                      "obeys": True, "sig": ""})
+    return {"id": "s%d" % k, "nodes": nodes, "maxActive": 0, "handlers": [rng.choice([0, 1]), rng.choice([0, 1]), rng.choice([0, 1, 1]), rng.choice([0, 1, 1])],
+            "seed": rng.randrange(1 << 30), "stopAfter": 0, "stopVia": rng.choice(["api", "api", "os"]), "cleanupMs": 2000}
+
+
+def agent_stop_stream(chk):
+    """stop requested through the agent's own entry points (API /stop, OS signal) while scripted processes that obey or ignore
+    the stop signal are in flight; watches signal delivery, SIGKILL escalation after MaxCleanUpTime, end of the run and handlers"""
+    import p_c08
+    binp, out = common.build_harness("agentrun")
+    if not binp:
+        chk.oblige("harness-build:agentrun", False, out[-3000:]); return
+    cases = [gen_stop_case(chk.rng, k) for k in range(16 if chk.tier == "quick" else 120)]
+    res = p_c08.run_harness(binp, cases, workers=16)
+    st = {"stop_cases": 0, "with_ignoring_process": 0, "via_api": 0, "escalations_seen": 0, "max_end_ms": 0}
+    for c in cases:
+        r = res.get(c["id"])
+        if not r or not r.get("stop"):
+            chk.oblige("harness-run:agent-stop:" + c["id"], False, json.dumps(r)[:500]); continue
+        rep = r["stop"]
+        chk.evaluations += 1; st["stop_cases"] += 1; st["via_api"] += c["stopVia"] == "api"
+        chk.nontrivial.add("stop" + json.dumps(c["nodes"]) + c["stopVia"])
+        infl = [i for i in rep.get("inflight") or [] if i < 1000]
+        bad = None
+        for i in infl:
+            nd = c["nodes"][i]; sg = (rep.get("sigs") or {}).get(str(i)) or []
+            want = SIGNUM[nd["sig"]] if (c["stopVia"] == "api" and nd["sig"]) else 15
+            if not sg:
+                bad = ("agent-stop:running-step-got-no-signal", "step %d in flight at the stop received no signal" % i)
+            elif sg[0] != want:
+                bad = ("agent-stop:wrong-stop-signal", "step %d (signalOnStop=%r, stop via %s) first received signal %d, expected %d" % (i, nd["sig"], c["stopVia"], sg[0], want))
+            elif not nd["obeys"]:
+                st["with_ignoring_process"] += 1
+                if 9 not in sg:
+                    bad = ("agent-stop:process-ignoring-the-stop-signal-not-force-killed", "step %d ignores signal %d; signals received within MaxCleanUpTime+4s: %r — no SIGKILL" % (i, sg[0], sg))
+                else:
+                    st["escalations_seen"] += 1
+        if rep["endedMs"] < 0:
+            bad = bad or ("agent-stop:run-does-not-end-within-cleanup-bound", "run still alive %d ms after the stop (MaxCleanUpTime %d ms)" % (c["cleanupMs"] + 4000, c["cleanupMs"]))
+        else:
+            st["max_end_ms"] = max(st["max_end_ms"], rep["endedMs"])
+            if rep["endedMs"] > c["cleanupMs"] + 2500:
+                bad = bad or ("agent-stop:run-ends-late", "ended %d ms after the stop, MaxCleanUpTime %d ms" % (rep["endedMs"], c["cleanupMs"]))
+            if infl and rep.get("overall") != "canceled":
+                bad = bad or ("agent-stop:stopped-run-not-recorded-canceled", "final record says %r" % rep.get("overall"))
+            h = rep.get("handlers") or {}
+            if infl and c["handlers"][2] and h.get("2", 0) != 1:
+                bad = bad or ("agent-stop:cancel-handler-not-run-once", "onCancel started %d times" % h.get("2", 0))
+            if infl and c["handlers"][3] and h.get("3", 0) != 1:
+                bad = bad or ("agent-stop:exit-handler-not-run-once", "onExit started %d times" % h.get("3", 0))
+            if infl and (h.get("0", 0) or h.get("1", 0)):
+                bad = bad or ("agent-stop:wrong-outcome-handler-run", "handlers started: %r" % h)
+        if bad:
+            chk.violation("C05:" + bad[0], bad[1], {"agent_stop_case": c, "report": rep})
+    chk.stats["agent_stop"] = st
 
 
 def run(chk, replay):
-    sched.run_property(chk, PROP, replay)
+    if replay:
+        rp = json.load(open(replay))
+        if "agent_stop_case" in rp.get("case", {}):
+            import p_c08
+            chk.rng.seed(1)
+            binp, out = common.build_harness("agentrun")
+            c = rp["case"]["agent_stop_case"]
+            r = p_c08.run_harness(binp, [c], workers=1).get(c["id"])
+            chk.oblige("replay:agent-stop", bool(r and r.get("stop")), json.dumps(r)[:800])
+            return
+    import re, os
+    def tie_names(area):
+        p = os.path.join(common.LEAN, "BdModel", "Tie", area + ".lean")
+        return re.findall(r"^theorem tie_(\w+) ", open(p).read(), re.M) if os.path.exists(p) else []
+    chk.trusted = common.TRUSTED_COMMON + ["quiescence discipline of the scheduler harness (one completion released at a time)"]
+    chk.assumptions = [sched.NOTES.get(PROP, "")]
+    common.lean_obligations(chk, "BdModel/Props/%s.lean" % PROP, {"Sched": sched.SCHED_TIE, "Agent": tie_names("Agent")}, extra_targets=["BdModel.Sched.Tables"])
+    sched.run_stream(chk, PROP, replay)
+    agent_stop_stream(chk)
